@@ -28,14 +28,19 @@ CLAIMS = {
         design='4/C01'),
 
     'C02': dict(
-        technique='Coq refinement lemmas (abstraction stored : key->bytes) + verified trace monitor + random histories vs dict',
-        text=('PROOF (Coq, closed): abstraction Store.stored; C02_views_are_the_map (library read path = abstraction under the invariant), '
-              'C02_add_loose_is_put, C02_pack_is_invisible, C02_delete_is_remove (program-level, all inputs), C02_maintenance_is_invisible (along ANY monotone history - pack_all_loose, clean_storage, re-loosening '
-              '- every stored object stays stored with its bytes), C02_delete_rows, C02_reads_are_content_addressed. TIE: Store.apply_ev replayed over '
-              'the intercepted trace of 27 operation variants must end in exactly the folder read raw; the verified monitor accepts every event '
-              'boundary; 180+ random histories over 14 operation kinds and all option combinations are compared with a dict after EVERY step '
-              '(has/get/bulk/meta/list/count/NotExistent, raw reader, validate). PARTIAL: the full refinement theorem over arbitrary histories of '
-              'model programs (direct-to-pack, repack, import) is not proved; those are decided by differential testing plus the monitor.'),
+        technique='Coq refinement: every write program is an exact map update of the abstraction stored : key->bytes (all inputs) + verified trace monitor + random histories vs dict',
+        text=('PROOF (Coq, closed): abstraction Store.stored; C02_views_are_the_map (library read path = abstraction under the invariant); per operation, '
+              'program-level and for ALL inputs: C02_add_loose_is_put + C02_add_loose_changes_nothing_else, C02_add_to_pack_is_put_all and '
+              'C02_import_is_put_all (every key that is not the key of a handed-over object reads back exactly as before, present or absent; the '
+              'handed-over ones read back as their content: C01_direct_to_pack_roundtrip / C14_transfer_complete_and_byte_identical), '
+              'C02_pack_is_invisible + C02_pack_changes_no_view (every key, both directions), C02_delete_is_remove, C11_repack_* (repack keeps keys and '
+              'contents); C02_maintenance_is_invisible (along ANY monotone history every stored object stays stored with its bytes), C02_delete_rows, '
+              'C02_reads_are_content_addressed. TIE: Store.apply_ev replayed over the intercepted trace of 27 fixed and 7+ generated operation variants '
+              'must end in exactly the folder read raw, the programs reproduce those traces, the verified monitor accepts every event boundary; 180+ '
+              'random histories over 14 operation kinds and all option combinations are compared with a dict after EVERY step '
+              '(has/get/bulk/uneven bulk streams/meta/list/count/NotExistent, raw reader, validate). PARTIAL: the per-operation theorems are not '
+              'composed into one theorem over arbitrary operation sequences (each starts from any world satisfying the invariant and ends in one, so '
+              'they chain, but the chaining is not a stated theorem); loosen_object and pack roll-over inside one call are decided by the histories.'),
         design='4/C02'),
     'C03': dict(
         technique='Coq: invariant + sound boolean checker + verified trace monitor run on implementation traces; independent raw reader',
